@@ -17,6 +17,13 @@ model, and for several locations the model is compared with the real
   * IniFileStore.unquote.
 Section ids outside the modelled glob grammar / values with non-local option
 references: the model says so ('G' / 'R') and only the oracle runs.
+Locations (and section ids) also carry segment parameters (`,branch=x`, `/,branch=feat`,
+`,q=1`, malformed ones) on plain paths and on http:// / bzr+ssh:// / sftp:// URLs: the
+matcher keeps them in the location it matches against (theorems
+location_keeps_segment_parameters, own_section_matches_completely,
+stripped_section_does_not_match), reads {branchname} from `branch` (model segBranch /
+branchOf, op `br` against LocationMatcher.branch_name) and refuses a parameter without
+'='.  The real LocationStack round trip also runs at such locations.
 
 T2 (store round trip; the quoting layer is MODELLED, not abstract):
   * IniFileStore.quote (what Stack.set stores) and ConfigObj._quote with
@@ -90,6 +97,9 @@ Mutants this was built against (scratch worktree; each caught with a concrete in
   M15 IniFileStore.unquote strips double quotes only
   M16 IniFileStore.quote runs _quote with list_values off
   M18 _load_from_string parses with list_values=True
+  M19 (seed C49b) LocationMatcher.__init__ matches against the location with its segment
+      parameters stripped: own-section lookups, relpath/appendpath and LocationStack set/get
+      at `…,branch=x` locations break — caught by the location oracle and the LocationStack oracle
   H1  harmless: `matched` computed with all(...) instead of the loop — clean.
   H2  harmless: quote() via a local variable and an explicit multiline=True — clean
       (apart from the new family above).
@@ -105,6 +115,7 @@ THEOREMS = [
     "section_match_iff", "extra_is_unmatched_suffix", "iter_by_parts_spec",
     "most_specific_first", "sorted_is_permutation", "value_from_first_defining",
     "none_iff_no_section_defines", "matching_sections_mem", "most_specific_wins", "location_none_iff",
+    "location_keeps_segment_parameters", "own_section_matches_completely", "stripped_section_does_not_match",
     "ignore_parents_cut", "ignore_parents_none", "ignore_parents_gap", "ignore_parents_own_section_example",
     "secGet_fuel", "secGet_mono", "secGet'_spec",
     "no_policy_plain_value", "appendpath_value", "relpath_basename_expansion",
@@ -119,7 +130,8 @@ RULE = ("location stream: one case = (store text, location, option name, matcher
         "non-ASCII; quoting-layer streams: one case = (value, list_values) / (ini text) / (value text, following "
         "lines); non-trivial = needs quoting / loads with at least one option / non-empty")
 ASSUMPTIONS = [
-    "locations have no segment parameters (','), no empty inner components and no file:// scheme",
+    "locations have no file:// scheme; segment parameters (',k=v' on the last segment) are modelled for ASCII branch "
+    "values without '%' and blanks other than ' ' (otherwise the model answers 'G' and only the oracle runs)",
     "option names are not registered options (Stack.get then applies only unquote)",
     "values in the location stream reference only {relpath}, {basename}, {branchname}; a value FOUND that still "
     "holds another reference is oracle-skipped (stack-level expansion is not modelled)",
@@ -181,6 +193,14 @@ def show(v):
 COMP = ["a", "b", "c", "ab", "a.b", "é"]
 GCOMP = ["*", "?", "a*", "*b", "?b", "[ab]", "[!a]", "[a-c]x", "a?"]
 BAD_GLOB = ["[a", "a]", "[]", "[b-a]", "[!]"]
+
+
+# segment parameters of the last path segment (`,k=v`): LocationMatcher keeps them in the
+# location it matches against and reads the branch name from `branch`
+SEG_PARAMS = [",branch=x", ",branch=feat", "/,branch=feat", ",branch=x,q=1", ",q=1", ",q=1,branch=y", ",branch=",
+              ",branch=x,branch=z"]
+SEG_PARAMS_ODD = [",nb", ",branch=a%20b", ", branch = x ", ",branch=é", ",=v", ",branch=x=y"]
+URL_PREFIXES = [["http:", "", "h"], ["bzr+ssh:", "", "host"], ["sftp:", "", "u@h"]]
 
 
 def g_section_id(rng, bad=False):
@@ -268,13 +288,16 @@ def g_store(rng, bad=False):
     chain = None
     if rng.random() < 0.55:
         # sections along ONE path: several of them match the same location
-        chain = [""] + [rng.choice(COMP) for _ in range(rng.randint(2, 5))]
+        head = rng.choice(URL_PREFIXES) if rng.random() < 0.2 else [""]
+        chain = head + [rng.choice(COMP) for _ in range(rng.randint(2, 5))]
     for _ in range(rng.randint(1, 6)):
         if chain and rng.random() < 0.8:
-            k = rng.randint(2, len(chain))
-            sid = "/".join([chain[0]] + [globbed(rng, c) for c in chain[1:k]])
+            k = rng.randint(min(len(chain), 2 if chain[0] == "" else 4), len(chain))
+            sid = "/".join([chain[0]] + [(c if c in ("", "h", "host", "u@h") else globbed(rng, c)) for c in chain[1:k]])
             if rng.random() < 0.1:
                 sid += "/"
+            if rng.random() < 0.25:
+                sid = sid.rstrip("/") + rng.choice(SEG_PARAMS)       # a section for ONE colocated branch
         else:
             sid = g_section_id(rng, bad=bad)
         if sid in ids:
@@ -294,7 +317,7 @@ def g_location(rng, ids):
         comps = sid.rstrip("/").split("/")
         out = []
         for c in comps:
-            if c in COMP or c == "":
+            if c in COMP or c == "" or c.endswith(":") or c in ("h", "host", "u@h") or ("," in c and rng.random() < 0.7):
                 out.append(c)
             else:
                 out.append(rng.choice(["a", "b", "ab", "bx", "cb", "c", "ax"]))
@@ -309,6 +332,13 @@ def g_location(rng, ids):
         if rng.random() < 0.8:
             loc = "/" + loc
     if rng.random() < 0.1:
+        loc += "/"
+    r = rng.random()
+    if r < 0.3 and "," not in loc.rsplit("/", 1)[-1]:
+        loc = loc.rstrip("/") + rng.choice(SEG_PARAMS)
+    elif r < 0.36:
+        loc = loc.rstrip("/") + rng.choice(SEG_PARAMS_ODD)
+    if rng.random() < 0.03:
         loc += "/"
     return loc or "/"
 
@@ -368,9 +398,9 @@ def exc_name(e):
 
 def real_get(store, matcher, loc, name):
     from breezy import config
-    m = {"lm": config.LocationMatcher, "sp": config.StartingPathMatcher}[matcher](store, loc)
-    st = config.Stack([m.get_sections], store)
     try:
+        m = {"lm": config.LocationMatcher, "sp": config.StartingPathMatcher}[matcher](store, loc)
+        st = config.Stack([m.get_sections], store)
         return show(st.get(name))
     except (config.ExpandingUnknownOption, config.OptionExpansionLoop) as e:
         return exc_name(e)
@@ -380,8 +410,8 @@ def real_get(store, matcher, loc, name):
 
 def real_sections(store, matcher, loc):
     from breezy import config
-    m = {"ms": config.LocationMatcher, "ss": config.StartingPathMatcher}[matcher](store, loc)
     try:
+        m = {"ms": config.LocationMatcher, "ss": config.StartingPathMatcher}[matcher](store, loc)
         return ",".join(("~" if s.id is None else enc(s.id)) + ">" + enc(s.extra_path) for _, s in m.get_sections()) or "-"
     except Exception as e:
         return exc_name(e)
@@ -428,17 +458,44 @@ def o_unquote(v):
     return v
 
 
+class OInvalidURL(Exception):
+    pass
+
+
+def o_branch(loc):
+    """the branch name of a location, written from the documentation of segment
+    parameters: `,k=v` items after the last path segment (one trailing slash aside);
+    `branch` names the colocated branch, otherwise the last path segment does"""
+    import urllib.parse
+    from breezy import urlutils
+    u = loc
+    if u.endswith("/") and not (u.count("/") == 3 and "://" in u):
+        u = u[:-1]
+    seg = u.rsplit("/", 1)[-1]
+    params = {}
+    for sub in seg.split(",")[1:]:
+        if "=" not in sub:
+            raise OInvalidURL(sub)
+        k, v = sub.strip().split("=", 1)
+        params[k.strip()] = v.strip()
+    if "branch" not in params:
+        return urlutils.basename(loc)
+    if not params["branch"].isascii():
+        raise ValueError("not a URL")
+    return urllib.parse.unquote(params["branch"])
+
+
 def o_location_expected(secs, loc, name):
     """-> (documented value, value if the ignoring section itself is dropped, ignoring section consulted?)"""
-    from breezy import urlutils
     lp = o_parts(loc)
+    branch_name = o_branch(loc)        # the matcher refuses a malformed location before anything else
     cands = []
     for sid, opts in secs:
         if sid is None:
             cands.append((0, "", sid, opts, loc, ""))
         elif o_matches(sid, loc):
             n = len(o_parts(sid))
-            cands.append((n, sid, sid, opts, "/".join(lp[n:]), urlutils.basename(loc)))
+            cands.append((n, sid, sid, opts, "/".join(lp[n:]), branch_name))
     cands.sort(key=lambda c: (c[0], c[1]), reverse=True)
     documented = None      # first defined value among the sections consulted (the ignoring one included)
     dropped = None         # … if the ignoring section itself were skipped
@@ -561,7 +618,7 @@ def run_locations(ctx, n_stores, bad_ratio=0.06):
                 cases.append(case)
                 lines.append(("ms %s %s %s" % (cut_variant(), enc(loc), esecs)) if op == "ms"
                              else "ss %s %s" % (enc(loc), esecs))
-                outs.append(got if grammar else "G")
+                outs.append(got if grammar or got == "E:InvalidURL" else "G")
             # ---- values
             for name in NAMES:
                 for op in ("lm", "sp"):
@@ -577,7 +634,7 @@ def run_locations(ctx, n_stores, bad_ratio=0.06):
                     cases.append(case)
                     lines.append(_vline(op, loc, name, esecs))
                     if not grammar:
-                        outs.append("G")
+                        outs.append(got if got == "E:InvalidURL" else "G")
                     elif nonlocal_ref and (got.startswith("E:Expanding") or got.startswith("E:OptionExpansionLoop")):
                         outs.append("R")
                     else:
@@ -588,6 +645,9 @@ def run_locations(ctx, n_stores, bad_ratio=0.06):
     for c, l, i, m in zip(cases, lines, outs, replies):
         ctx.traces += 1
         if i == m:
+            continue
+        if m == "G" and c["op"] in ("lm", "ms") and "," in c["loc"]:
+            ctx.count("segment-parameter-outside-model")       # '%', non-ASCII or odd blanks in the parameters
             continue
         if m == "R" and c["op"] in ("lm", "sp") and has_nonlocal_ref(parsed_sections(load_store(c["text"]))):
             ctx.count("unmodelled-ref")
@@ -618,6 +678,10 @@ _REF = _re.compile(r"{[^\d\W](?:\.\w|-\w|\w)*}")
 def oracle_location(ctx, case, secs, loc, name, got, nonlocal_ref):
     try:
         documented, dropped, from_ignoring = o_location_expected(secs, loc, name)
+    except OInvalidURL:
+        if got != "E:InvalidURL":
+            _violation(ctx, case, "location %r: a segment parameter without '=' must be refused, got %s" % (loc, _pp(got)))
+        return
     except Exception:
         return        # section id outside fnmatch's domain etc.
     if documented is not None and _REF.search(documented):
@@ -665,13 +729,19 @@ def oracle_matching(ctx, case, secs, loc, got):
     from breezy import urlutils
     lp = o_parts(loc)
     try:
+        branch_name = o_branch(loc)
         cands = []
         for sid, opts in secs:
             if sid is None:
                 cands.append((0, "", None, opts, loc, ""))
             elif o_matches(sid, loc):
                 n = len(o_parts(sid))
-                cands.append((n, sid, sid, opts, "/".join(lp[n:]), urlutils.basename(loc)))
+                cands.append((n, sid, sid, opts, "/".join(lp[n:]), branch_name))
+    except OInvalidURL:
+        if got != "E:InvalidURL":
+            _violation(ctx, case, "LocationMatcher(%r): a segment parameter without '=' must be refused, got %s" % (
+                loc, _pp_list(got)))
+        return
     except Exception:
         return
     cands.sort(key=lambda c: (c[0], c[1]), reverse=True)
@@ -1176,6 +1246,14 @@ def run_location_stack(ctx, n):
     rng = ctx.rng
     for i in range(n):
         loc = "/rt%d/" % i + "/".join(rng.choice(COMP) for _ in range(rng.randint(1, 3)))
+        r = rng.random()
+        if r < 0.25:
+            loc = rng.choice(["bzr+ssh://host", "http://h", "sftp://u@h"]) + loc
+        stripped = None
+        if rng.random() < 0.5:
+            # a colocated branch: the location carries segment parameters
+            stripped = loc
+            loc += rng.choice([",branch=x", "/,branch=feature", ",branch=x,q=1", ",q=1"])
         value = g_rt_value(rng)
         while rt_family(value):
             value = g_rt_value(rng)
@@ -1190,6 +1268,7 @@ def run_location_stack(ctx, n):
             below = loc + "/" + rng.choice(COMP)
             got_below = config.LocationStack(below).get(name)
             other = config.LocationStack("/elsewhere%d" % i).get(name)
+            at_stripped = None if stripped is None or loc.startswith(stripped + "/") else config.LocationStack(stripped).get(name)
         except Exception as e:
             _violation(ctx, case, "LocationStack set/get raised %s" % type(e).__name__)
             continue
@@ -1200,6 +1279,9 @@ def run_location_stack(ctx, n):
                 loc, value, got_here, got_below))
         if other is not None:
             _violation(ctx, case, "value set for %r is visible at an unrelated location: %r" % (loc, other))
+        if at_stripped is not None:
+            _violation(ctx, case, "value set for the colocated branch %r is visible at %r (its last component differs): %r" % (
+                loc, stripped, at_stripped))
 
 
 def run_unquote(ctx, n):
@@ -1234,14 +1316,51 @@ def run_helpers(ctx, n):
         extra = "/".join(rng.choice(COMP) for _ in range(rng.randint(0, 3)))
         if rng.random() < 0.3:
             extra = "/" + extra + rng.choice(["", "/"])      # the no-name section's extra path is the location
+            if rng.random() < 0.3:
+                extra = rng.choice(["http://h", "bzr+ssh://host", "sftp://u@h"]) + extra + rng.choice(["", ",branch=x"])
         cases.append(dict(op="jn", base=base, extra=extra))
         lines.append("jn %s %s" % (enc(base), enc(extra)))
         outs.append(enc(urlutils.join(base, extra)))
-        p = rng.choice(["", "/"]) + extra + rng.choice(["", "/"])
+        p = rng.choice(["", "/"]) + extra.split("://")[-1] + rng.choice(["", "/"])       # basename spec: plain paths
         cases.append(dict(op="bn", path=p))
         lines.append("bn " + enc(p))
         outs.append(enc(urlutils.basename(p)))
     ctx.diff(cases, lines, outs, tie="T2-spec-of-external-helper")
+    # the branch name LocationMatcher derives from the location's segment parameters
+    from breezy import config
+    store = load_store("")
+    cases, lines, outs = [], [], []
+    for _ in range(n):
+        loc = g_location(rng, [])
+        if rng.random() < 0.3:
+            loc = rng.choice(["http://h", "bzr+ssh://host", "http://h,b=1"]) + rng.choice(["", "/", loc])
+        try:
+            got = enc(config.LocationMatcher(store, loc).branch_name)
+        except Exception as e:
+            got = exc_name(e)
+        try:
+            want = enc(o_branch(loc))
+        except OInvalidURL:
+            want = "E:InvalidURL"
+        except Exception:
+            want = None
+        if "," in loc.rstrip("/").rsplit("/", 1)[-1] and "branch" not in loc:
+            want = None        # other parameters only: what the basename should then be is not documented (T2 only)
+        case = dict(op="br", loc=loc)
+        if want is not None and got != want:
+            _violation(ctx, case, "LocationMatcher(%r).branch_name: got %s, documented %s (the branch name is the `branch` "
+                       "segment parameter, else the last segment of the location as given)" % (
+                           loc, *[x if x.startswith("E:") else repr(dec(x)) for x in (got, want)]))
+        ctx.case(case, nontrivial="," in loc)
+        ctx.count("op:br")
+        cases.append(case)
+        lines.append("br " + enc(loc))
+        outs.append(got)
+    replies = ctx.model(lines)
+    for c, l, i, m in zip(cases, lines, outs, replies):
+        ctx.traces += 1
+        if m != "G" and i != m:
+            ctx.mismatch(c, i, m, line=l)
 
 
 def run(ctx):
